@@ -1,10 +1,120 @@
+import PdshVerif.Base.Hex
+import PdshVerif.Hostlist.Cli
+import PdshVerif.Hostlist.Spec
 import Driver.Util
 
-/-! engine stub: filled in by the owner of this engine (see FRAMEWORK.md) -/
+/-! line protocol of the `hl` engine (see harness/hl_harness.c for the format):
+    `pdshmodel hl model`  — the executable model of hostlist.c / opt.c
+    `pdshmodel hl spec`   — the independent string-level specification (C01 expansion, C15 classes) -/
 namespace Driver.HlDrv
+open PdshVerif PdshVerif.Hostlist
 
-def main (_args : List String) : IO UInt32 := do
-  IO.eprintln "engine not implemented"
-  return 2
+def errnoClass (e : Nat) : String :=
+  if e = 0 then "0" else if e = EINVAL then "EINVAL" else if e = ERANGE then "ERANGE" else s!"E{e}"
+
+def fatalClass : Fatal → String
+  | .none => "-"
+  | .invalidRange => "invalid"
+  | .tooMany => "toomany"
+
+/-- `<k>[+]:<hex>,<hex>...` of the first `limit` names of `xs` (`xs` holds ≤ limit+1 names) -/
+def namesField (xs : List Str) (limit : Nat) : String :=
+  let shown := xs.take limit
+  let more := if xs.length > limit then "+" else ""
+  s!"{shown.length}{more}:" ++ ",".intercalate (shown.map Hex.encodeChars)
+
+def probeAnswer (s : Str) (limit : Nat) : String :=
+  match create s with
+  | .null e f => s!"null:{errnoClass e}:{fatalClass f}"
+  | .ub w => "ub:" ++ (w.replace " " "_")
+  | .diverge => "diverge"
+  | .ok h =>
+    let a := namesField (iterAll h (limit + 1)) limit
+    match shiftAll h (limit + 1) with
+    | none => "ub:shift_no_range_record"
+    | some sh =>
+      let b := namesField sh limit
+      s!"ok | {h.count} {h.nranges} | {a} | " ++ (if a = b then "=" else b)
+
+def optName : Option Str → String
+  | none => "null"
+  | some x => Hex.encodeChars x
+
+def dumpField (h : HL) : String :=
+  s!"{h.nhosts} {h.nranges}" ++ String.join (h.ranges.toList.map fun r =>
+    s!" {Hex.encodeChars r.pre}:{r.lo}:{r.hi}:{r.width}:{if r.single then 1 else 0}")
+
+def cliAnswer (s : Str) (limit : Nat) : String :=
+  match cliTargets s with
+  | .null _ f => s!"fatal:{fatalClass f}"
+  | .ub w => "ub:" ++ (w.replace " " "_")
+  | .diverge => "diverge"
+  | .ok none => "unsupported"
+  | .ok (some h) =>
+    -- what `-Q` lists (hostlist_deranged_string prints every name in full, like hostlist_shift; the
+    -- printing functions themselves are C14's model) and what dsh() walks (hostlist_next)
+    match shiftAll h (limit + 1) with
+    | none => "ub:shift_no_range_record"
+    | some sh =>
+      let a := namesField sh limit
+      let b := namesField (iterAll h (limit + 1)) limit
+      s!"ok | {h.count} | {a} | " ++ (if a = b then "=" else b)
+
+def stepModel (st : Option HL) (line : String) : Option HL × String :=
+  match Driver.words line, st with
+  | ["probe", hx, lim], _ | ["fprobe", hx, lim], _ | ["fprobe", hx, lim, _], _ =>
+    match Hex.decodeToChars hx, lim.toNat? with
+    | some s, some l => (st, probeAnswer s l)
+    | _, _ => (st, "bad-op")
+  | ["cli", hx, lim], _ =>
+    match Hex.decodeToChars hx, lim.toNat? with
+    | some s, some l => (st, cliAnswer s l)
+    | _, _ => (st, "bad-op")
+  | ["create", hx], _ =>
+    match Hex.decodeToChars hx with
+    | some s =>
+      match create s with
+      | .ok h => (some h, s!"ok {h.count} {h.nranges}")
+      | .null e f => (none, s!"null {errnoClass e} {fatalClass f}")
+      | .ub w => (none, "ub:" ++ (w.replace " " "_"))
+      | .diverge => (none, "diverge")
+    | none => (st, "bad-op")
+  | ["new"], _ => (some HL.new, "ok 0 0")
+  | _, none => (none, "no-list")
+  | ["count"], some h => (st, s!"{h.count}")
+  | ["nranges"], some h => (st, s!"{h.nranges}")
+  | ["dump"], some h => (st, dumpField h)
+  | ["hosts", lim], some h =>
+    match lim.toNat? with
+    | some l => (st, namesField (iterAll h (l + 1)) l)
+    | none => (st, "bad-op")
+  | ["shift"], some h =>
+    if shiftCrashes h then (st, "ub:shift_no_range_record")
+    else match shift h with
+      | (x, h') => (some h', optName x)
+  | ["nth", n], some h =>
+    match n.toNat? with
+    | some n =>
+      match nth h n with
+      | none => (st, "null")
+      | some none => (st, "ub:nth_buf")
+      | some (some x) => (st, Hex.encodeChars x)
+    | none => (st, "bad-op")
+  | _, _ => (st, "unsupported")
+
+def stepSpec (_ : Unit) (line : String) : Unit × String :=
+  match Driver.words line with
+  | ["classify", hx, lim] =>
+    match Hex.decodeToChars hx, lim.toNat? with
+    | some s, some l => ((), Spec.answer s l)
+    | _, _ => ((), "bad-op")
+  | _ => ((), "bad-op")
+
+def main (args : List String) : IO UInt32 := do
+  let stdin ← IO.getStdin
+  match args with
+  | ["model"] => Driver.forLines stdin (none : Option HL) stepModel; return 0
+  | ["spec"] => Driver.forLines stdin () stepSpec; return 0
+  | _ => IO.eprintln "usage: pdshmodel hl model|spec"; return 2
 
 end Driver.HlDrv
